@@ -81,10 +81,10 @@ GNext(g, ev) ==
 IsFloor(q, num, den) == q * den <= num /\ num < (q + 1) * den
 IsCeil(q, num, den)  == (q - 1) * den < num /\ num <= q * den
 
-Monitors == {"C05_rate", "C05_round", "C05_preview", "C05_movement", "C05_nonneg",
+Monitors == {"C05_rate", "C05_round", "C05_preview", "C05_movement", "C05_nonneg", "C05_entitled",
              "C01_vault_sum", "C01_vault_fail", "C01_vault_events", "C01_vault_delta",
              "C02_vault_debit", "C02_vault_allow"}
-PropOf(m) == CASE m \in {"C05_rate", "C05_round", "C05_preview", "C05_movement", "C05_nonneg"} -> "C05"
+PropOf(m) == CASE m \in {"C05_rate", "C05_round", "C05_preview", "C05_movement", "C05_nonneg", "C05_entitled"} -> "C05"
                [] m \in {"C02_vault_debit", "C02_vault_allow"} -> "C02"
                [] OTHER -> "C01"
 
@@ -97,6 +97,7 @@ Ante(m, g, ev) ==
     [] m = "C05_preview"  -> ok /\ o.op \in VaultOps
     [] m = "C05_movement" -> ok /\ o.op \in VaultOps \cup {"donate"}
     [] m = "C05_nonneg"   -> TRUE
+    [] m = "C05_entitled" -> ok /\ o.op \in Leave /\ o.oper # o.own
     [] m = "C01_vault_sum"    -> TRUE
     [] m = "C01_vault_fail"   -> ~ok
     [] m = "C01_vault_events" -> TRUE
@@ -123,6 +124,9 @@ Cons(m, g, ev) ==
                              /\ obs.sh = ExpSh(g, o, ev.ret)
                              /\ obs.supply = ExpSupply(g, o, ev.ret)
     [] m = "C05_nonneg"   -> \A a \in g.accts : obs.asset[a] >= 0 /\ obs.sh[a] >= 0
+    \* nobody takes out value he is not entitled to: an operator other than the owner leaves the vault with
+    \* the owner's shares only within the share allowance the owner gave him (in shares, not in assets)
+    [] m = "C05_entitled" -> g.sal[o.own][o.oper] >= g.sh[o.own] - obs.sh[o.own]
     [] m = "C01_vault_sum"  -> obs.supply = SumOver(obs.sh, g.accts)
     [] m = "C01_vault_fail" -> /\ obs.asset = g.asset /\ obs.sh = g.sh /\ obs.supply = g.supply
                                /\ \A a \in g.accts : \A b \in g.accts :
